@@ -15,7 +15,9 @@ REPO = os.environ.get('VERIF_REPO', '/repo')
 BUILD = os.path.join(VERIF, 'build')
 SRC = os.path.join(VERIF, 'src')
 
-ASAN = ['-fsanitize=address', '-fno-omit-frame-pointer']
+# alloca red zones are switched off: MIR's interpreter allocas + non-instrumented JIT code / trampolines / longjmp leave
+# stale alloca poison on the stack, which ASan then reports as dynamic-stack-buffer-overflow in unrelated frames
+ASAN = ['-fsanitize=address', '-fno-omit-frame-pointer', '--param=asan-instrument-allocas=0']
 UBSAN = ['-fsanitize=undefined', '-fno-sanitize=alignment', '-fno-sanitize-recover=undefined']
 
 
@@ -174,7 +176,7 @@ def build_common_tsan():
 
 
 def link(out, objs, extra=(), san=None, cxx='g++'):
-    cmd = [cxx, '-o', out] + list(objs) + (ASAN if san is None else list(san)) + ['-lrapidcheck', '-lm', '-ldl', '-lpthread'] + list(extra)
+    cmd = [cxx, '-o', out] + list(objs) + (['-fsanitize=address'] if san is None else list(san)) + ['-lrapidcheck', '-lm', '-ldl', '-lpthread'] + list(extra)
     stamp_src = ' '.join(cmd) + ''.join(str(os.path.getmtime(o)) for o in objs)
     stamp = hashlib.sha256(stamp_src.encode()).hexdigest()
     sp = out + '.stamp'
